@@ -180,7 +180,15 @@ def pop_functional_variant(k):
         if name in ("position_kept", "progress", "one_char_per_step", f"functional{k}"):
             c.ens(e, name)
     c.rais("UnexpectedEOF", when="False")
-    c.loop(1, index="it1", invariant=["Pos(self)", "it1 == 0", "lpos(self) == old(lpos(self))"],
+    # the outer loop is unrolled (times is the constant k); its iteration number is visible to
+    # the invariant of the splice loop as __it0: at the head of the splice loop of iteration i
+    # the cursor is at the i-th logical character
+    if k > 1:
+        c.loop(0, index="it0", unroll=k)
+        at = " and ".join(f"implies(__it0 == {i}, lpos(self) == {logical_offsets(k)[i]})" for i in range(k))
+    else:
+        at = "lpos(self) == old(lpos(self))"
+    c.loop(1, index="it1", invariant=["Pos(self)", "it1 == 0", at],
            havoc=[F_POS, F_LINE, F_COL], types={"char": "str", "size": "int"}, unroll=None)
     c.mustfail("ord_at(result, 0) == 65", "always_A")
     return c
@@ -319,7 +327,7 @@ def job_pop(E, which):
     elif which == "escape":
         c = pop_contract(True)
     else:
-        c = pop_functional_variant(1)
+        c = pop_functional_variant(int(which[len("functional"):]))
     return c, c.variant
 
 
@@ -333,11 +341,14 @@ def job_get_next_token(E):
     return get_next_token_contract(), None
 
 
-def lexer_jobs():
+def lexer_jobs(tier="quick"):
     mod = "vp.specs.lexer"
     jobs = [(f"raw_peek[{k}]", mod, "job_raw_peek", (k,)) for k in (1, 2, 3, 4)]
     jobs += [(f"peek[{k}]", mod, "job_peek", (k,)) for k in (1, 2)]
-    jobs += [(f"pop[{w}]", mod, "job_pop", (w,)) for w in ("plain", "escape", "functional1")]
+    jobs += [(f"pop[{w}]", mod, "job_pop", (w,)) for w in ("plain", "escape", "functional1", "functional2")]
+    if tier == "thorough":
+        # 27 paths through the unrolled outer loop: about two minutes of z3, thorough tier only
+        jobs.append(("pop[functional3]", mod, "job_pop", ("functional3",)))
     jobs += [(n, mod, "job_parser", (n,)) for n in parser_contracts()]
     jobs.append(("get_next_token", mod, "job_get_next_token", ()))
     return jobs
